@@ -22,6 +22,9 @@ pub trait Grp: 'static {
     fn coords(p: &Self::L) -> (Self::B, Self::B, Self::B);
     fn rmul(k: Fr, p: Self::L) -> Self::L; // the `Fr * P` operator form
     fn lambda(s: &mut Src) -> (Self::B, &'static str);
+    /// a root of unity of small order (1, 2, 3, 4, 6) of the base field, as an element of Self::B: scale factors related
+    /// by such a factor have equal squares / cubes / fourth powers
+    fn small_root_of_unity(i: usize) -> (Self::B, &'static str);
     /// a rescaling factor chosen so that a COORDINATE of the representative (lambda^2 x or lambda^3 y) is a boundary value
     fn lambda_for_coords(_s: &mut Src, _p: &(Self::B, Self::B)) -> Option<(Self::B, &'static str)> {
         None
@@ -96,6 +99,22 @@ pub trait Grp: 'static {
 pub struct GA;
 pub struct GB;
 
+fn fq_roots_of_unity(i: usize) -> (F, &'static str) {
+    let q = zp::q();
+    let g = BigUint::from(2u32); // 2 is a non-residue mod q, and not a cube
+    let w = g.modpow(&((q - 1u32) / 3u32), q);
+    let w = if w.is_one() { BigUint::from(3u32).modpow(&((q - 1u32) / 3u32), q) } else { w };
+    let im = g.modpow(&((q - 1u32) / 4u32), q);
+    match i % 6 {
+        0 => (F::one(), "1"),
+        1 => (F::one().neg(), "-1"),
+        2 => (rf::f_from_big(&w), "omega"),
+        3 => (rf::f_from_big(&((&w * &w) % q)), "omega^2"),
+        4 => (rf::f_from_big(&im), "sqrt(-1)"),
+        _ => (rf::f_from_big(&((q - &w) % q)), "-omega"),
+    }
+}
+
 impl Grp for GA {
     type L = G1;
     type B = F;
@@ -137,6 +156,9 @@ impl Grp for GA {
                 (rf::f_from_big(&v), "lambda")
             }
         }
+    }
+    fn small_root_of_unity(i: usize) -> (F, &'static str) {
+        fq_roots_of_unity(i)
     }
     fn lambda_for_coords(s: &mut Src, p: &(F, F)) -> Option<(F, &'static str)> {
         let q = zp::q();
@@ -308,6 +330,10 @@ impl Grp for GB {
                 }
             }
         }
+    }
+    fn small_root_of_unity(i: usize) -> (R2, &'static str) {
+        let (z, n) = fq_roots_of_unity(i);
+        (R2::new(z, F::zero()), n)
     }
     fn lambda_for_coords(s: &mut Src, p: &(R2, R2)) -> Option<(R2, &'static str)> {
         let t = [R2::one(), R2::one().neg(), R2::new(F::from(2u64), F::zero()), R2::new(F::zero(), F::one()), R2::new(F::one(), F::one())][s.choose(5)];
